@@ -91,6 +91,21 @@ pub fn fmt_pad_event(v: &Val, f: &str, width: usize, align: char) -> Value {
     })
 }
 
+/// The public constructors of DelayedFormat: any combination of (date, time, offset) may be present; a specifier whose field is absent fails.
+pub fn fmt_parts_event(d: Option<NaiveDate>, t: Option<NaiveTime>, off: Option<i32>, f: &str) -> Value {
+    use chrono::Timelike;
+    let (n, (secs, frac)) = (d.map(dn).unwrap_or(1), t.map(|t| (t.num_seconds_from_midnight(), t.nanosecond())).unwrap_or((0, 0)));
+    ev("fmt_parts", json!({"n": n, "secs": secs, "frac": frac, "off": off.unwrap_or(0), "hd": d.is_some(), "ht": t.is_some(), "ho": off.is_some(), "f": cps(f)}), || {
+        let items = StrftimeItems::new(f);
+        let mut s = String::new();
+        let r = match off {
+            Some(o) => write!(s, "{}", chrono::format::DelayedFormat::new_with_offset(d, t, &FixedOffset::east_opt(o).unwrap(), items)),
+            None => write!(s, "{}", chrono::format::DelayedFormat::new(d, t, items)),
+        };
+        json!({"r": outcome(r, s)})
+    })
+}
+
 pub fn fmt_event(v: &Val, f: &str) -> Value {
     ev("fmt", json!({"ty": v.ty(), "v": v.json(), "f": cps(f)}), || json!({"r": v.display(f), "w": v.write_to(f)}))
 }
@@ -412,6 +427,20 @@ pub fn run(ctx: &Ctx) -> Value {
         }
     }
     bump("padded_display_events", n);
+    // 9. DelayedFormat built from its parts: every presence pattern of (date, time, offset)
+    n = 0;
+    let part_formats = ["%Y-%m-%d", "%H:%M:%S%.f", "%z", "%:z %Z", "%s", "%c", "%+", "%F %T %z", "%a %j %U", "%I %p", "%e|%k|%::z", "%%", "x"];
+    for (i, z) in zs_all.iter().enumerate() {
+        if i % ctx.t(11, 3) != 0 { continue; }
+        let (d, t, o) = (z.naive_local().date(), z.naive_local().time(), z.offset().local_minus_utc());
+        for mask in 0..8u32 {
+            for (j, f) in part_formats.iter().enumerate() {
+                if (i + j + mask as usize) % ctx.t(3, 1) != 0 { continue; }
+                tw.emit(fmt_parts_event(if mask & 1 != 0 { Some(d) } else { None }, if mask & 2 != 0 { Some(t) } else { None }, if mask & 4 != 0 { Some(o) } else { None }, f)); n += 1;
+            }
+        }
+    }
+    bump("delayed_format_parts_events", n);
     tw.finish();
     counts.insert("events".into(), json!(tw.total));
     counts.insert("dates".into(), json!(ds.len()));
